@@ -40,6 +40,8 @@ KNOWN_TEXT = {
     "F16realloc": "Queue<int>::EnsureSize(n, true) that has to reallocate adds items that are not default items (the new array is left as the allocator delivered it)",
     "QswapStale": "copy-only owning item type: SwapContents / Plunder / move-assignment between a Queue in its inline buffer and one on the heap leaves copies of the items in the inline buffer; after the Queue shrinks back into it they are outside the window, and EnsureSize(n, true) shows them as 'default' items",
     "QshrinkOverflow": "EnsureSize(numSlots, false, extra, allowShrink = true) with numSlots + extra smaller than the number of items writes all items into the smaller new array (heap-buffer-overflow reported by ASan)",
+    "QaddHeadStartSign": "q.AddHeadMulti(queue, startIndex = 0x80000000, n) reads queue[0x7FFFFFFF] (MASSERT 'Invalid index', abort; out of bounds without assertions) instead of adding nothing: the int32 loop counter starts at INT32_MAX for exactly this startIndex",
+    "QextraOverflow": "EnsureSize(numSlots, false, extraReallocItems) adds numSlots + extraReallocItems in 32 bits: EnsureSize(20, false, 0xFFFFFFF0) on 8 items allocates 4 slots and copies 8 items into them (heap-buffer-overflow reported by ASan)",
     "QaddHeadSelf": "q.AddHeadMulti(q) (also q.InsertItemsAt(0, q)) with two or more items and enough spare slots prepends the wrong items: the indices it reads from move with every item it prepends",
 }
 
@@ -254,7 +256,7 @@ def run(v, tier, seed):
     else: shards, runs, nops = int(os.environ.get("C16_SHARDS", "64")), 600, 400
     with cf.ThreadPoolExecutor(max_workers=7) as ex:
         f_gen = ex.submit(gen_and_replay)
-        f_dir = [ex.submit(directed, c) for c in ("swapstale", "shrinkoverflow", "addheadself", "ensuresizerealloc")]
+        f_dir = [ex.submit(directed, c) for c in ("swapstale", "shrinkoverflow", "addheadself", "ensuresizerealloc", "addheadstart", "extraoverflow")]
         f_rnd = [ex.submit(random_and_validate, t, s, runs, nops) for s in range(shards) for t in TYPES]
         # quick: four of the twelve wrong definitions; thorough: all
         f_reach = [ex.submit(reach, w, l) for w, l in sorted(WRONG.items()) if (not quick) or w in ("failchanges", "stale", "addhead", "indexofend")]
@@ -267,16 +269,16 @@ def run(v, tier, seed):
         # known findings: directed cases
         for f in f_dir:
             case, rc, se, row = f.result()
-            fid = {"swapstale": "QswapStale", "shrinkoverflow": "QshrinkOverflow", "addheadself": "QaddHeadSelf", "ensuresizerealloc": "F16realloc"}[case]
+            fid = {"swapstale": "QswapStale", "shrinkoverflow": "QshrinkOverflow", "addheadself": "QaddHeadSelf", "ensuresizerealloc": "F16realloc", "addheadstart": "QaddHeadStartSign", "extraoverflow": "QextraOverflow"}[case]
             crashed = _stopped(rc)
             if rc != 0 and not crashed: raise vlib.MachineryError("qu directed %s failed rc=%s: %s" % (case, rc, se[-1500:]))
             reproduced = crashed or (row is not None and row.get("reproduced"))
             notes["directed_" + case] = {"reproduced": bool(reproduced), "sanitizer_stopped_it": crashed, "observed": (row or {}).get("observed"), "expected": (row or {}).get("expected")}
             if row is not None:
-                for k in ("movable_type_ok", "with_reallocation_ok", "without_reallocation_ok"):
+                for k in ("movable_type_ok", "with_reallocation_ok", "without_reallocation_ok", "neighbouring_values_ok"):
                     if k in row and not row[k]: v.violation("directed case %s: the neighbouring case that must work does not (%s)" % (case, k), row, tag="directed-" + case)
             if reproduced:
-                text = KNOWN_TEXT[fid] + (" [directed case: expected %s, observed %s]" % (row.get("expected"), row.get("observed")) if row else " [directed case stopped by the sanitizer: %s]" % (re.findall(r"ERROR: AddressSanitizer: [\w-]+", se) or ["?"])[0])
+                text = KNOWN_TEXT[fid] + (" [directed case: expected %s, observed %s]" % (row.get("expected"), row.get("observed")) if row else " [directed case stopped: %s]" % (re.findall(r"ERROR: AddressSanitizer: [\w-]+", se) or re.findall(r"muscle::Crash\(\) was called from \S+", se) or ["?"])[0])
                 if not v.known_finding(fid, text):
                     v.violation("directed case %s: %s" % (case, text), {"case": case, "row": row, "stderr": se[-3000:], "cmd": [qu, "directed", case, "<report>"]}, tag="directed-" + case)
 
@@ -289,7 +291,7 @@ def run(v, tier, seed):
         for typ, rc, se, rows in reps:
             rsum = [x for x in rows if x.get("summary")]
             if _stopped(rc):
-                v.violation("replay of TLC behaviours on Queue<%s>: %s (rc=%s): %s" % (typ, "a call did not return" if rc == 68 else "the sanitizer / a signal stopped the harness", rc, _san(se)), {"cmd": [qu, "replay", bf, "<report>", typ], "stderr": se[-6000:]}, tag="replay-sanitizer-" + typ)
+                v.violation("replay of TLC behaviours on Queue<%s>: %s (rc=%s): %s" % (typ, "a call did not return" if rc == 68 else ("an assertion of the library failed (abort)" if rc == 70 else "the sanitizer / a signal stopped the harness"), rc, _san(se)), {"cmd": [qu, "replay", bf, "<report>", typ], "stderr": se[-6000:]}, tag="replay-sanitizer-" + typ)
                 continue
             if rc != 0 or not rsum: raise vlib.MachineryError("qu replay %s failed rc=%s: %s" % (typ, rc, se[-1500:]))
             for k in ("runs", "followed", "known", "cut_short", "steps"): rs[k] += rsum[0][k]
@@ -310,7 +312,7 @@ def run(v, tier, seed):
             x = f.result(); tot["shards"] += 1
             if x["rc"] != 0:
                 if _stopped(x["rc"]):
-                    v.violation("random calls on Queue<%s>: %s (rc=%s): %s" % (x["typ"], "a call did not return" if x["rc"] == 68 else "the sanitizer / a signal stopped the harness", x["rc"], _san(x["stderr"])), {"cmd": x["cmd"], "stderr": x["stderr"][-6000:]}, tag="random-sanitizer-%s%d" % (x["typ"], x["shard"]))
+                    v.violation("random calls on Queue<%s>: %s (rc=%s): %s" % (x["typ"], "a call did not return" if x["rc"] == 68 else ("an assertion of the library failed (abort)" if x["rc"] == 70 else "the sanitizer / a signal stopped the harness"), x["rc"], _san(x["stderr"])), {"cmd": x["cmd"], "stderr": x["stderr"][-6000:]}, tag="random-sanitizer-%s%d" % (x["typ"], x["shard"]))
                     continue
                 raise vlib.MachineryError("qu random failed rc=%s: %s" % (x["rc"], x["stderr"][-1500:]))
             s = [y for y in x["rows"] if y.get("summary")][0]
@@ -371,7 +373,7 @@ def _run_harness(cmd, timeout):
 
 
 def _stopped(rc):
-    return rc in (66, 67, 68) or (rc is not None and rc < 0 and rc != -999)
+    return rc in (66, 67, 68, 70) or (rc is not None and rc < 0 and rc != -999)
 
 
 def _rows(path):
@@ -388,7 +390,7 @@ def _rows(path):
 
 def _san(stderr):
     m = re.search(r"ERROR: (AddressSanitizer|UndefinedBehaviorSanitizer|LeakSanitizer)[^\n]*", stderr) or re.search(r"runtime error:[^\n]*", stderr)
-    w = re.search(r"QU-(IN-PROGRESS|CALL-DOES-NOT-RETURN): [^\n]*", stderr)
+    w = re.search(r"QU-(IN-PROGRESS|CALL-DOES-NOT-RETURN|ABORTED-IN): [^\n]*", stderr)
     return ((m.group(0) if m else "?") + " | " + (w.group(0) if w else ""))[:600]
 
 
